@@ -87,8 +87,10 @@ def bulk_pairs(values, cap, dtype="float64"):
     return pairs, above, float(arr.min()).hex(), float(arr.max()).hex()
 
 
-def run_program(mode, prog):
-    """Returns one observation per executed op; stops after the first op that raises."""
+def run_program(mode, prog, keep_going=False):
+    """Returns one observation per executed op; stops after the first op that raises.
+    keep_going=True (C14 sessions): an op that raises is recorded as {"raise": ..., "state": state of its target
+    histogram after the failed call, if it exists} and the program CONTINUES on the same objects."""
     import numpy
     from orso.profiler import distogram as D
 
@@ -165,6 +167,12 @@ def run_program(mode, prog):
             except KeyError:
                 raise
             except Exception as e:
+                if keep_going:
+                    ob = {"raise": type(e).__name__}
+                    if k not in ("new", "loadb") and op[1] in env:
+                        ob["state"] = _state(mode, env[op[1]])
+                    out.append(ob)
+                    continue
                 out.append({"raise": type(e).__name__})
                 break
         return out
